@@ -74,3 +74,41 @@ func TestC03_Finding_F8(t *testing.T) {
 	}
 	vkCase("C03.finding_f8", "f8", nil)
 }
+
+// F9 (provisional id): do_tproxy_wan_egress_udp() remembers a decision in the flow's
+// conn state only when it is not "direct, no mark, no must". A locally originated UDP
+// flow whose first datagram was routed direct is therefore tracked but re-routed on every
+// later datagram, so a rule reload or a newly learned domain changes the path of a running
+// flow - the LAN hook does remember direct decisions. The statement demands that a tracked
+// flow keeps the decision of its first packet.
+func TestC03_Finding_F9(t *testing.T) {
+	e := c03FixedEnv(t, "direct", true, true)
+	f := &c03Flow{ID: 0, Origin: c03OrigWan, Cookie: 1000, Pid: 2000, ProcName: "curl", Pk: vrPacket{L4: "udp",
+		Src: netip.MustParseAddrPort("192.0.2.10:40000"), Dst: netip.MustParseAddrPort("203.0.113.7:443"), Mac: [6]byte{2, 0, 0, 0, 0, 9}}}
+	e.registerProcess(f)
+	first := e.send(f, false, false, 0, 32, false)
+	if e.verdictName(first.Verdict) != "OK" || first.RedirectKind != 0 {
+		t.Fatalf("first datagram under 'fallback: direct': %s", e.verdictName(first.Verdict))
+	}
+	// reload: everything new goes to the proxy group
+	e.installProgram(vrProgram{Groups: []string{"g0"}, Fallback: vrOutbound{Name: "g0"}}, false)
+	e.k.SetClock(e.now + c03Sec/2)
+	second := e.send(f, false, false, 0, 32, false)
+	v := e.verdictName(second.Verdict)
+	t.Logf("second datagram of the tracked flow after the reload: %s (redirect=%v)", v, second.RedirectKind != 0)
+	bad := v != "OK" || second.RedirectKind != 0
+	if vkKnown(c03FindingUdpSticky) {
+		if bad {
+			vkKnownReproduced(c03FindingUdpSticky)
+			t.Logf("known finding %s still reproduces", c03FindingUdpSticky)
+		} else {
+			t.Logf("known finding %s no longer reproduces", c03FindingUdpSticky)
+		}
+		vkCase("C03.finding_f9", "f9-known", nil)
+		return
+	}
+	if bad {
+		t.Fatalf("%s: a tracked, locally originated UDP flow decided 'direct' must stay direct after a rule reload; second datagram got %s", c03FindingUdpSticky, v)
+	}
+	vkCase("C03.finding_f9", "f9", nil)
+}
